@@ -16,7 +16,7 @@
    store of op lists, [sruns] gives the reference answers from the expressions the readers denote. *)
 From Coq Require Import ZArith List Lia Bool.
 From PV Require Import Base.PySlice Base.NpSearch C01.Model C02.Model C02.Spec C02.Proofs.
-From PV Require Import C01.Spec C02.Proofs2.
+From PV Require Import C01.Spec C02.Proofs2 C02.Proofs3.
 Import ListNotations.
 Open Scope Z_scope.
 
@@ -25,36 +25,36 @@ Open Scope Z_scope.
    dtype semantics, every expression, every recording, every row index on which the base reader agrees
    with NumPy *)
 Theorem C02_commute : forall (A D : Type) (sem : code -> D -> A -> option A) (dsem : code -> D -> option D)
-    (rows : item -> option (list (list A))) (d0 : D) (M : list (list A)) (e : expr) (E : arr A D) (it : item),
+    (rows : item -> option (list (list A))) (d0 : D) (c0 : Z) (M : list (list A)) (e : expr) (E : arr A D) (it : item),
   rows it = np_index M it ->
-  eval_eager sem dsem e (mkarr d0 M) = Some E ->
-  reader_getitem sem dsem rows d0 (compile e) it None = option_map GRows (index_arr E it).
+  eval_eager sem dsem e (mkarr d0 c0 M) = Some E ->
+  reader_getitem sem dsem rows d0 c0 (compile e) it None = option_map GRows (index_arr E it).
 Proof.
-  intros A D sem dsem rows d0 M e E it Hr He.
-  rewrite (getitem_commute sem dsem rows d0 M e E it None Hr He). unfold then_index.
+  intros A D sem dsem rows d0 c0 M e E it Hr He.
+  rewrite (getitem_commute sem dsem rows d0 c0 M e E it None Hr He). unfold then_index.
   rewrite bind_some_r. reflexivity.
 Qed.
 Print Assumptions C02_commute.
 
 (* reader[rows, cols] on a derived reader: rows first, then columns, of the eager value *)
 Theorem C02_commute_cols : forall (A D : Type) (sem : code -> D -> A -> option A) (dsem : code -> D -> option D)
-    (rows : item -> option (list (list A))) (d0 : D) (M : list (list A)) (e : expr) (E : arr A D)
+    (rows : item -> option (list (list A))) (d0 : D) (c0 : Z) (M : list (list A)) (e : expr) (E : arr A D)
     (it : item) (cs : colsel),
   rows it = np_index M it ->
-  eval_eager sem dsem e (mkarr d0 M) = Some E ->
+  eval_eager sem dsem e (mkarr d0 c0 M) = Some E ->
   is_whole it = false ->
-  reader_getitem sem dsem rows d0 (compile e) it (Some cs) =
+  reader_getitem sem dsem rows d0 c0 (compile e) it (Some cs) =
   option_map GRows (bind (index_arr E it) (np_cols cs)).
 Proof.
-  intros A D sem dsem rows d0 M e E it cs Hr He Hw.
-  rewrite (getitem_commute sem dsem rows d0 M e E it (Some cs) Hr He). rewrite Hw. reflexivity.
+  intros A D sem dsem rows d0 c0 M e E it cs Hr He Hw.
+  rewrite (getitem_commute sem dsem rows d0 c0 M e E it (Some cs) Hr He). rewrite Hw. reflexivity.
 Qed.
 Print Assumptions C02_commute_cols.
 
 (* exactly reader[:, cols] is again a reader, and it is the reader of the expression e[:, cols] *)
 Theorem C02_cols_reader : forall (A D : Type) (sem : code -> D -> A -> option A) (dsem : code -> D -> option D)
-    (rows : item -> option (list (list A))) (d0 : D) (e : expr) (cs : colsel),
-  reader_getitem sem dsem rows d0 (compile e) (ISlice None None None) (Some cs) =
+    (rows : item -> option (list (list A))) (d0 : D) (c0 : Z) (e : expr) (cs : colsel),
+  reader_getitem sem dsem rows d0 c0 (compile e) (ISlice None None None) (Some cs) =
   Some (GReader (compile (ECols e cs))).
 Proof. reflexivity. Qed.
 Print Assumptions C02_cols_reader.
@@ -70,10 +70,10 @@ Print Assumptions C02_compile.
 (* "is again a reader": on the heap model, applying an operator / [:, cols] to any existing reader
    returns a reader whose entries are the parent's followed by the new one *)
 Theorem C02_is_reader : forall (A D : Type) (sem : code -> D -> A -> option A) (dsem : code -> D -> option D)
-    (rows : item -> option (list (list A))) (d0 : D) (h : heap) (st : list (list op)) (p : nat) (o : op)
+    (rows : item -> option (list (list A))) (d0 : D) (c0 : Z) (h : heap) (st : list (list op)) (p : nat) (o : op)
     (ops : list op),
   Abs h st -> nth_error st p = Some ops ->
-  exists h', hstep sem dsem rows d0 h_append_op h (CDerive p o) = Some (h', ODerived) /\
+  exists h', hstep sem dsem rows d0 c0 h_append_op h (CDerive p o) = Some (h', ODerived) /\
              Abs h' (st ++ [ops ++ [o]]).
 Proof. exact (@hstep_derive_total). Qed.
 Print Assumptions C02_is_reader.
@@ -81,21 +81,21 @@ Print Assumptions C02_is_reader.
 (* the heap model of _append_op refines the functional store: after ANY history from a fresh reader the
    answers are the same and every reader's _ops points to a list holding exactly its own entries *)
 Theorem C02_heap_refines : forall (A D : Type) (sem : code -> D -> A -> option A) (dsem : code -> D -> option D)
-    (rows : item -> option (list (list A))) (d0 : D) (cmds : list cmd),
-  (forall h os, hrun sem dsem rows d0 h_append_op cmds heap0 = Some (h, os) ->
-     exists st, frun sem dsem rows d0 cmds store0 = Some (st, os) /\ Abs h st) /\
-  (hrun sem dsem rows d0 h_append_op cmds heap0 = None -> frun sem dsem rows d0 cmds store0 = None).
+    (rows : item -> option (list (list A))) (d0 : D) (c0 : Z) (cmds : list cmd),
+  (forall h os, hrun sem dsem rows d0 c0 h_append_op cmds heap0 = Some (h, os) ->
+     exists st, frun sem dsem rows d0 c0 cmds store0 = Some (st, os) /\ Abs h st) /\
+  (hrun sem dsem rows d0 c0 h_append_op cmds heap0 = None -> frun sem dsem rows d0 c0 cmds store0 = None).
 Proof. exact (@hrun_from0). Qed.
 Print Assumptions C02_heap_refines.
 
 (* independence, functional store: no command changes the entries of an existing reader, hence
    what reading it returns *)
 Theorem C02_independent : forall (A D : Type) (sem : code -> D -> A -> option A) (dsem : code -> D -> option D)
-    (rows : item -> option (list (list A))) (d0 : D) (cmds : list cmd) (st st' : list (list op))
+    (rows : item -> option (list (list A))) (d0 : D) (c0 : Z) (cmds : list cmd) (st st' : list (list op))
     (os : list (@out A D)) (k : nat) (it : item) (cols : option colsel) (o : @out A D),
-  frun sem dsem rows d0 cmds st = Some (st', os) ->
-  fstep sem dsem rows d0 st (CRead k it cols) = Some (st, o) ->
-  fstep sem dsem rows d0 st' (CRead k it cols) = Some (st', o).
+  frun sem dsem rows d0 c0 cmds st = Some (st', os) ->
+  fstep sem dsem rows d0 c0 st (CRead k it cols) = Some (st, o) ->
+  fstep sem dsem rows d0 c0 st' (CRead k it cols) = Some (st', o).
 Proof. intros. eapply frun_independent; eassumption. Qed.
 Print Assumptions C02_independent.
 
@@ -103,12 +103,12 @@ Print Assumptions C02_independent.
    children, siblings, grandchildren, reads with temporary 'cols' clones), reading reader k again with
    the same index returns the same answer *)
 Theorem C02_independent_heap : forall (A D : Type) (sem : code -> D -> A -> option A) (dsem : code -> D -> option D)
-    (rows : item -> option (list (list A))) (d0 : D) (cmds1 cmds2 : list cmd) (h1 h2 h' : heap)
+    (rows : item -> option (list (list A))) (d0 : D) (c0 : Z) (cmds1 cmds2 : list cmd) (h1 h2 h' : heap)
     (os1 os2 : list (@out A D)) (k : nat) (it : item) (cols : option colsel) (o : @out A D),
-  hrun sem dsem rows d0 h_append_op cmds1 heap0 = Some (h1, os1) ->
-  hstep sem dsem rows d0 h_append_op h1 (CRead k it cols) = Some (h', o) ->
-  hrun sem dsem rows d0 h_append_op cmds2 h1 = Some (h2, os2) ->
-  exists h'', hstep sem dsem rows d0 h_append_op h2 (CRead k it cols) = Some (h'', o).
+  hrun sem dsem rows d0 c0 h_append_op cmds1 heap0 = Some (h1, os1) ->
+  hstep sem dsem rows d0 c0 h_append_op h1 (CRead k it cols) = Some (h', o) ->
+  hrun sem dsem rows d0 c0 h_append_op cmds2 h1 = Some (h2, os2) ->
+  exists h'', hstep sem dsem rows d0 c0 h_append_op h2 (CRead k it cols) = Some (h'', o).
 Proof. intros. eapply hrun_independent0; eassumption. Qed.
 Print Assumptions C02_independent_heap.
 
@@ -116,8 +116,8 @@ Print Assumptions C02_independent_heap.
    in ANY history run on the heap model, two reads of the same reader with the same index give the
    same answer, whatever happened in between *)
 Theorem C02_history_stable : forall (A D : Type) (sem : code -> D -> A -> option A) (dsem : code -> D -> option D)
-    (rows : item -> option (list (list A))) (d0 : D) (cmds : list cmd) (h : heap) (os : list (@out A D)),
-  hrun sem dsem rows d0 h_append_op cmds heap0 = Some (h, os) -> Stable (combine cmds os).
+    (rows : item -> option (list (list A))) (d0 : D) (c0 : Z) (cmds : list cmd) (h : heap) (os : list (@out A D)),
+  hrun sem dsem rows d0 c0 h_append_op cmds heap0 = Some (h, os) -> Stable (combine cmds os).
 Proof. intros. eapply hrun_stable; eassumption. Qed.
 Print Assumptions C02_history_stable.
 
@@ -125,41 +125,89 @@ Print Assumptions C02_history_stable.
    expression the reader denotes (by its derivation path) applied to the whole recording, then indexed --
    whenever that reference exists (NumPy does not raise on the whole recording) *)
 Theorem C02_tree_commute : forall (A D : Type) (sem : code -> D -> A -> option A) (dsem : code -> D -> option D)
-    (rows : item -> option (list (list A))) (d0 : D) (M : list (list A)) (cmds : list cmd) (h : heap)
+    (rows : item -> option (list (list A))) (d0 : D) (c0 : Z) (M : list (list A)) (cmds : list cmd) (h : heap)
     (os : list (@out A D)) (ros : list (option (@out A D))),
   (forall r it cols, In (CRead r it cols) cmds -> rows it = np_index M it) ->
-  hrun sem dsem rows d0 h_append_op cmds heap0 = Some (h, os) ->
-  sruns sem dsem (mkarr d0 M) cmds [EBase] = Some ros ->
+  hrun sem dsem rows d0 c0 h_append_op cmds heap0 = Some (h, os) ->
+  sruns sem dsem (mkarr d0 c0 M) cmds [EBase] = Some ros ->
   Forall2 (@agrees A D) os ros.
 Proof. intros. eapply hrun_tree_commute; eassumption. Qed.
 Print Assumptions C02_tree_commute.
 
 (* ---- with C01: the abstract row reader instantiated by the model of the multi-file reader
    (PV.C01.Model.getitem_rows: bounds, _get_subitems, per-part reads, np.vstack) and C01's theorem
-   C01_rows_numpy -- the premise on [rows] is discharged on C01's whole regime (integers in [-n, n),
-   unit-step slices selecting >= 1 row, non-empty increasing lists), for every split into files ---- *)
+   C01_rows_numpy -- the premise on [rows] is discharged on the whole row-index reading of C02
+   ([row_item sizes it]: C01's regime -- integers in [-n, n), unit-step slices selecting >= 1 row,
+   non-empty increasing lists -- or an EMPTY unit-step slice the base reader answers, see
+   C02_reader_empty_rows below), for every split into files ---- *)
 Theorem C02_reader_commute : forall (A D : Type) (sem : code -> D -> A -> option A) (dsem : code -> D -> option D)
-    (d0 : D) (parts : list (list (list A))) (e : expr) (E : arr A D) (it : item) (cols : option colsel),
-  valid_item (zlen (concat parts)) it ->
-  eval_eager sem dsem e (mkarr d0 (concat parts)) = Some E ->
-  reader_getitem sem dsem (getitem_rows parts) d0 (compile e) it cols =
+    (d0 : D) (c0 : Z) (parts : list (list (list A))) (e : expr) (E : arr A D) (it : item) (cols : option colsel),
+  row_item (map zlen parts) it ->
+  eval_eager sem dsem e (mkarr d0 c0 (concat parts)) = Some E ->
+  reader_getitem sem dsem (getitem_rows parts) d0 c0 (compile e) it cols =
     match cols with
     | Some cs => if is_whole it then Some (GReader (compile (ECols e cs)))
                  else option_map GRows (then_index E it cols)
     | None => option_map GRows (then_index E it cols)
     end.
-Proof. exact (@reader_commute). Qed.
+Proof. exact (@reader_commute_all). Qed.
 Print Assumptions C02_reader_commute.
 
 Theorem C02_reader_tree_commute : forall (A D : Type) (sem : code -> D -> A -> option A) (dsem : code -> D -> option D)
-    (d0 : D) (parts : list (list (list A))) (cmds : list cmd) (h : heap) (os : list (@out A D))
+    (d0 : D) (c0 : Z) (parts : list (list (list A))) (cmds : list cmd) (h : heap) (os : list (@out A D))
     (ros : list (option (@out A D))),
-  Forall (valid_cmd (zlen (concat parts))) cmds ->
-  hrun sem dsem (getitem_rows parts) d0 h_append_op cmds heap0 = Some (h, os) ->
-  sruns sem dsem (mkarr d0 (concat parts)) cmds [EBase] = Some ros ->
+  Forall (row_cmd (map zlen parts)) cmds ->
+  hrun sem dsem (getitem_rows parts) d0 c0 h_append_op cmds heap0 = Some (h, os) ->
+  sruns sem dsem (mkarr d0 c0 (concat parts)) cmds [EBase] = Some ros ->
   Forall2 (@agrees A D) os ros.
-Proof. exact (@reader_tree_commute). Qed.
+Proof. exact (@reader_tree_commute_all). Qed.
 Print Assumptions C02_reader_tree_commute.
+
+(* ---- EMPTY row selections (strengthening pass: an early return on an empty stacked block that skips
+   _apply_ops gives (reader / 2)[5:5] the RAW dtype and reader[:, [0, 2]][5:5] all the columns) ---- *)
+(* abstract row reader: where the base reader answers with a block of 0 rows, as NumPy does on the
+   recording, every derived reader answers with the 0-row array that carries the dtype AND the column
+   count of the eagerly evaluated expression *)
+Theorem C02_commute_empty : forall (A D : Type) (sem : code -> D -> A -> option A) (dsem : code -> D -> option D)
+    (rows : item -> option (list (list A))) (d0 : D) (c0 : Z) (M : list (list A)) (e : expr) (E : arr A D) (it : item),
+  rows it = Some [] -> np_index M it = Some [] ->
+  eval_eager sem dsem e (mkarr d0 c0 M) = Some E ->
+  reader_getitem sem dsem rows d0 c0 (compile e) it None = Some (GRows (mkarr (a_dt E) (a_nc E) [])).
+Proof. exact (@commute_empty). Qed.
+Print Assumptions C02_commute_empty.
+
+(* the empty slices of the reading (unit step, NumPy-normalised bounds 0 < e <= s < n, rows s and e - 1
+   in the same file): C01's model of the multi-file reader returns a 0-row block, and so does NumPy on
+   the concatenation *)
+Theorem C02_reader_empty_rows : forall (A : Type) (parts : list (list (list A))) (it : item),
+  empty_item (map zlen parts) it ->
+  getitem_rows parts it = Some [] /\ np_index (concat parts) it = Some [].
+Proof. exact (@getitem_rows_empty). Qed.
+Print Assumptions C02_reader_empty_rows.
+
+Theorem C02_reader_commute_empty : forall (A D : Type) (sem : code -> D -> A -> option A)
+    (dsem : code -> D -> option D) (d0 : D) (c0 : Z) (parts : list (list (list A))) (e : expr) (E : arr A D)
+    (it : item),
+  empty_item (map zlen parts) it ->
+  eval_eager sem dsem e (mkarr d0 c0 (concat parts)) = Some E ->
+  reader_getitem sem dsem (getitem_rows parts) d0 c0 (compile e) it None =
+  Some (GRows (mkarr (a_dt E) (a_nc E) [])).
+Proof. exact (@reader_commute_empty). Qed.
+Print Assumptions C02_reader_commute_empty.
+
+(* arr[:, sel] as modelled (selector resolved against shape[1], also on 0 rows) is C01's column
+   selection on every array whose rows have shape[1] entries *)
+Theorem C02_cols_select_cols : forall (A D : Type) (sel : colsel) (X : arr A D),
+  Forall (fun r => zlen r = a_nc X) (a_rows X) ->
+  np_cols sel X =
+  bind (col_indices (a_nc X) sel) (fun idx => option_map (mkarr (a_dt X) (zlen idx)) (select_cols sel (a_rows X))).
+Proof. exact (@np_cols_select_cols). Qed.
+Print Assumptions C02_cols_select_cols.
+
+(* the regime test of the comparator decides the reading *)
+Theorem C02_row_item_b : forall (sizes : list Z) (it : item), row_item_b sizes it = true <-> row_item sizes it.
+Proof. exact row_item_b_spec. Qed.
+Print Assumptions C02_row_item_b.
 
 (* ---- the list(...) copy in _append_op is what independence rests on: without it (parent and clone
    share one list object) a history exists in which re-reading the parent gives another answer ---- *)
@@ -171,14 +219,14 @@ Definition ex_add : op := OMap (bin_code BAdd (SInt 10)).
 Definition ex_hist : list cmd := [CRead 0 (IInt 1) None; CDerive 0 ex_add; CRead 0 (IInt 1) None].
 
 Theorem C02_alias_refuted :
-  exists h os, hrun ex_sem ex_dsem ex_rows 0 h_append_op_alias ex_hist heap0 = Some (h, os) /\
+  exists h os, hrun ex_sem ex_dsem ex_rows 0 3 h_append_op_alias ex_hist heap0 = Some (h, os) /\
                ~ Stable (combine ex_hist os).
 Proof.
   eexists. eexists. split; [vm_compute; reflexivity|].
   intros HS.
-  specialize (HS (CRead 0 (IInt 1) None) (ORows (mkarr 0 [[4; 5; 6]]))
-                 (CRead 0 (IInt 1) None) (ORows (mkarr 0 [[14; 15; 16]]))).
-  assert (H : ORows (mkarr 0 [[4; 5; 6]]) = ORows (mkarr 0 [[14; 15; 16]])).
+  specialize (HS (CRead 0 (IInt 1) None) (ORows (mkarr 0 3 [[4; 5; 6]]))
+                 (CRead 0 (IInt 1) None) (ORows (mkarr 0 3 [[14; 15; 16]]))).
+  assert (H : ORows (mkarr 0 3 [[4; 5; 6]]) = ORows (mkarr 0 3 [[14; 15; 16]])).
   { apply HS; [left; reflexivity|right; right; left; reflexivity|reflexivity]. }
   discriminate H.
 Qed.
@@ -189,9 +237,9 @@ Print Assumptions C02_alias_refuted.
 Definition ex_sem2 (c : code) (d : Z) (a : Z) : option Z := if a =? 0 then None else Some (2 * a).
 Theorem C02_eager_premise_needed :
   exists (e : expr) (it : item),
-    eval_eager ex_sem2 ex_dsem e (mkarr 0 [[0; 1]; [2; 3]]) = None /\
-    reader_getitem ex_sem2 ex_dsem (np_index [[0; 1]; [2; 3]]) 0 (compile e) it None =
-      Some (GRows (mkarr 0 [[4; 6]])).
+    eval_eager ex_sem2 ex_dsem e (mkarr 0 2 [[0; 1]; [2; 3]]) = None /\
+    reader_getitem ex_sem2 ex_dsem (np_index [[0; 1]; [2; 3]]) 0 2 (compile e) it None =
+      Some (GRows (mkarr 0 2 [[4; 6]])).
 Proof. exists (EBinR BPow (SInt 2) EBase), (IInt 1). split; vm_compute; reflexivity. Qed.
 Print Assumptions C02_eager_premise_needed.
 
@@ -211,14 +259,14 @@ Example C02_ex_compile :
   compile ex_e = [OCols (CList [2; 0]); OMap (rbin_code BSub (SInt 2)); OMap (bin_code BMul (SInt 3))].
 Proof. reflexivity. Qed.
 Example C02_ex_commute :
-  exists E, eval_eager ex_sem ex_dsem ex_e (mkarr 0 ex_M) = Some E /\
-            reader_getitem ex_sem ex_dsem ex_rows 0 (compile ex_e) (ISlice (Some 1) None None) None =
+  exists E, eval_eager ex_sem ex_dsem ex_e (mkarr 0 3 ex_M) = Some E /\
+            reader_getitem ex_sem ex_dsem ex_rows 0 3 (compile ex_e) (ISlice (Some 1) None None) None =
               option_map GRows (index_arr E (ISlice (Some 1) None None)) /\
-            index_arr E (ISlice (Some 1) None None) = Some (mkarr 0 [[26; 24]; [29; 27]]).
+            index_arr E (ISlice (Some 1) None None) = Some (mkarr 0 2 [[26; 24]; [29; 27]]).
 Proof. eexists. split; [vm_compute; reflexivity|]. split; vm_compute; reflexivity. Qed.
 Example C02_ex_cols :
-  reader_getitem ex_sem ex_dsem ex_rows 0 (compile ex_e) (IInt (-1)) (Some (CSlice None None (Some (-1)))) =
-  Some (GRows (mkarr 0 [[27; 29]])).
+  reader_getitem ex_sem ex_dsem ex_rows 0 3 (compile ex_e) (IInt (-1)) (Some (CSlice None None (Some (-1)))) =
+  Some (GRows (mkarr 0 2 [[27; 29]])).
 Proof. vm_compute. reflexivity. Qed.
 (* a tree: parent, two siblings, a grandchild; the heap model answers = the reference answers *)
 Definition ex_tree : list cmd :=
@@ -226,25 +274,47 @@ Definition ex_tree : list cmd :=
    CRead 0 (IInt 0) None; CRead 1 (IInt 0) None; CRead 2 (IInt 0) None; CRead 3 (IInt 0) None;
    CRead 1 (IInt 0) (Some (CList [1]))].
 Example C02_ex_tree :
-  option_map snd (hrun ex_sem ex_dsem ex_rows 0 h_append_op ex_tree heap0) =
-  Some [ODerived; ODerived; ODerived; ORows (mkarr 0 [[1; 2; 3]]); ORows (mkarr 0 [[11; 12; 13]]);
-        ORows (mkarr 0 [[3; 1]]); ORows (mkarr 0 [[21; 22; 23]]); ORows (mkarr 0 [[12]])] /\
-  sruns ex_sem ex_dsem (mkarr 0 ex_M) ex_tree [EBase] =
-  Some [Some ODerived; Some ODerived; Some ODerived; Some (ORows (mkarr 0 [[1; 2; 3]]));
-        Some (ORows (mkarr 0 [[11; 12; 13]])); Some (ORows (mkarr 0 [[3; 1]]));
-        Some (ORows (mkarr 0 [[21; 22; 23]])); Some (ORows (mkarr 0 [[12]]))].
+  option_map snd (hrun ex_sem ex_dsem ex_rows 0 3 h_append_op ex_tree heap0) =
+  Some [ODerived; ODerived; ODerived; ORows (mkarr 0 3 [[1; 2; 3]]); ORows (mkarr 0 3 [[11; 12; 13]]);
+        ORows (mkarr 0 2 [[3; 1]]); ORows (mkarr 0 3 [[21; 22; 23]]); ORows (mkarr 0 1 [[12]])] /\
+  sruns ex_sem ex_dsem (mkarr 0 3 ex_M) ex_tree [EBase] =
+  Some [Some ODerived; Some ODerived; Some ODerived; Some (ORows (mkarr 0 3 [[1; 2; 3]]));
+        Some (ORows (mkarr 0 3 [[11; 12; 13]])); Some (ORows (mkarr 0 2 [[3; 1]]));
+        Some (ORows (mkarr 0 3 [[21; 22; 23]])); Some (ORows (mkarr 0 1 [[12]]))].
 Proof. split; vm_compute; reflexivity. Qed.
 (* with the aliasing variant the same tree gives other answers: the siblings and the parent see each
    other's entries *)
 Example C02_ex_tree_alias :
-  option_map snd (hrun ex_sem ex_dsem ex_rows 0 h_append_op_alias ex_tree heap0) <>
-  option_map snd (hrun ex_sem ex_dsem ex_rows 0 h_append_op ex_tree heap0).
+  option_map snd (hrun ex_sem ex_dsem ex_rows 0 3 h_append_op_alias ex_tree heap0) <>
+  option_map snd (hrun ex_sem ex_dsem ex_rows 0 3 h_append_op ex_tree heap0).
 Proof. vm_compute. discriminate. Qed.
 
 (* three files of 1, 3 and 2 rows; (R[:, ::-1] + 10)[1:5] read across both file boundaries *)
 Example C02_ex_reader :
-  reader_getitem ex_sem ex_dsem (getitem_rows [[[1; 2]]; [[3; 4]; [5; 6]; [7; 8]]; [[9; 10]; [11; 12]]]) 0
+  reader_getitem ex_sem ex_dsem (getitem_rows [[[1; 2]]; [[3; 4]; [5; 6]; [7; 8]]; [[9; 10]; [11; 12]]]) 0 2
                  (compile (EBinL BAdd (ECols EBase (CSlice None None (Some (-1)))) (SInt 10)))
                  (ISlice (Some 1) (Some 5) None) None =
-  Some (GRows (mkarr 0 [[14; 13]; [16; 15]; [18; 17]; [20; 19]])).
+  Some (GRows (mkarr 0 2 [[14; 13]; [16; 15]; [18; 17]; [20; 19]])).
 Proof. vm_compute. reflexivity. Qed.
+
+(* empty selections: three files of 1, 3 and 2 rows, dtype tag 6; the operator maps dtype 6 to 11.
+   (R[:, [1]] <op> 2)[2:2] and [3:2] (rows 2 and 1..2 lie in the second file): the block has 0 rows, ONE
+   column and dtype 11 -- not the raw (0, 2) block of dtype 6 *)
+Definition ex_dsem3 (c : code) (d : Z) : option Z := Some 11.
+Definition ex_parts : list (list (list Z)) := [[[1; 2]]; [[3; 4]; [5; 6]; [7; 8]]; [[9; 10]; [11; 12]]].
+Definition ex_e3 : expr := EBinL BTruediv (ECols EBase (CList [1])) (SInt 2).
+Example C02_ex_empty :
+  empty_item (map zlen ex_parts) (ISlice (Some 2) (Some 2) None) /\
+  empty_item (map zlen ex_parts) (ISlice (Some 3) (Some (-4)) (Some 1)) /\
+  reader_getitem ex_sem ex_dsem3 (getitem_rows ex_parts) 6 2 (compile ex_e3) (ISlice (Some 2) (Some 2) None) None =
+    Some (GRows (mkarr 11 1 [])) /\
+  reader_getitem ex_sem ex_dsem3 (getitem_rows ex_parts) 6 2 (compile ex_e3) (ISlice (Some 3) (Some (-4)) (Some 1)) None =
+    Some (GRows (mkarr 11 1 [])) /\
+  option_map (fun E => (a_dt E, a_nc E)) (eval_eager ex_sem ex_dsem3 ex_e3 (mkarr 6 2 (concat ex_parts))) = Some (11, 1) /\
+  (* on a file boundary the base reader itself raises (np.vstack of no block): outside the reading *)
+  empty_item_b (map zlen ex_parts) (ISlice (Some 1) (Some 1) None) = false /\
+  getitem_rows ex_parts (ISlice (Some 1) (Some 1) None) = None /\
+  (* a column out of range raises on a block of 0 rows as well *)
+  reader_getitem ex_sem ex_dsem3 (getitem_rows ex_parts) 6 2 (compile ex_e3) (ISlice (Some 2) (Some 2) None)
+                 (Some (CList [1])) = None.
+Proof. repeat split; try (vm_compute; reflexivity); vm_compute; intuition discriminate. Qed.
